@@ -124,6 +124,18 @@ static long vpe_strtol(const char *nptr, char **endptr, int base)
 	return neg ? (long)(0UL - v) : (long)v;
 }
 #define strtol(s, e, b) vpe_strtol((s), (e), (b))
+static int vpe_strcasecmp(const char *a, const char *b)
+{
+	size_t i = 0;
+	for (;; i++) {
+		unsigned char x = (unsigned char)a[i], y = (unsigned char)b[i];
+		if (x >= 'A' && x <= 'Z') x = (unsigned char)(x + 32);
+		if (y >= 'A' && y <= 'Z') y = (unsigned char)(y + 32);
+		if (x != y) return x < y ? -1 : 1;
+		if (!x) return 0;
+	}
+}
+#define strcasecmp(a, b) vpe_strcasecmp((a), (b))
 #define strlen(s) vpe_strlen(s)
 #define strcmp(a, b) vpe_strcmp((a), (b))
 #define strncmp(a, b, n) vpe_strncmp((a), (b), (n))
